@@ -354,6 +354,64 @@ def enclosing_ifs(F, e):
     return find(F.d.get('body'), []) or []
 
 
+
+def _always_leaves(s):
+    """does statement s end in return / goto / break / continue on every path (syntactically)?"""
+    if s is None:
+        return False
+    k = s['k']
+    if k in ('ret', 'goto', 'break', 'continue'):
+        return True
+    if k == 'seq':
+        return bool(s['c']) and _always_leaves(s['c'][-1])
+    if k == 'if':
+        return _always_leaves(s.get('then')) and _always_leaves(s.get('else'))
+    return False
+
+
+def guard_conditions(F, e):
+    """statement-tree view of what holds when node e is evaluated: [(condition expr id, truth)] -- the enclosing if
+    statements (then-arm: true, else-arm: false) and every earlier `if(c) return/goto ...;` guard in an enclosing block
+    (false).  Conditions are whole expressions (a&&b stays one).  Sound only for operands that are not modified between
+    the guard and e; callers check that."""
+    root = e
+    while F.sparent.get(root) is not None:
+        root = F.sparent[root]
+
+    def find(s, acc):
+        if s is None:
+            return None
+        k = s['k']
+        if k in ('expr', 'decl', 'ret') and s.get('e') == root:
+            return acc
+        if k == 'seq':
+            cur = list(acc)
+            for c in s['c']:
+                r = find(c, cur)
+                if r is not None:
+                    return r
+                if c['k'] == 'if' and c.get('else') is None and _always_leaves(c.get('then')):
+                    cur = cur + [(c['cond'], False)]
+            return None
+        if k == 'if':
+            if s.get('cond') == root:
+                return acc
+            r = find(s.get('then'), acc + [(s['cond'], True)])
+            if r is None:
+                r = find(s.get('else'), acc + [(s['cond'], False)])
+            return r
+        if k in ('for', 'while', 'do', 'switch', 'case', 'default', 'label'):
+            for key in ('init', 'body'):
+                if isinstance(s.get(key), dict):
+                    r = find(s[key], acc)
+                    if r is not None:
+                        return r
+            if s.get('cond') == root or s.get('inc') == root:
+                return acc
+        return None
+    return find(F.d.get('body'), []) or []
+
+
 class Proxy:
     """records the obligations of a shared rule function under another rule id"""
     def __init__(self, chk, rid, only=None):
